@@ -70,6 +70,7 @@ def generate(prop, rng, tier):
             "source": rng.choice(["uea", "uea", "ram_presplit"]) if cvt.startswith("presplit") else rng.choice(["ram", "ram", "uea"]) if kind == "tsc" else "ram",
             "n_train": rng.randint(2, n - 2),
             "target_pos": rng.choice(["last", "last", "first", "middle"]),
+            "row_labels": rng.choice([0, 0, 100, 7]),
             "classes": rng.choice([2, 3])})
     if n_ds >= 2 and rng.random() < 0.5:
         for ds in datasets[1:]:
@@ -283,7 +284,12 @@ class World:
                 out.append(RAMDataset(_rows_to_frame(rows, index=lab, target_pos=ds.get("target_pos", "last")),
                                       name=ds["name"]))
             else:
-                out.append(RAMDataset(_rows_to_frame(self.raw[ds["name"]],
+                rows_ = self.raw[ds["name"]]
+                lab_ = None
+                if ds.get("row_labels", 0):
+                    # row labels that are not the positions 0..n-1 (records store positions)
+                    lab_ = list(range(ds["row_labels"], ds["row_labels"] + len(rows_)))
+                out.append(RAMDataset(_rows_to_frame(rows_, index=lab_,
                                                      target_pos=ds.get("target_pos", "last")),
                                       name=ds["name"]))
         return out
@@ -479,6 +485,18 @@ class Model:
     def state_hash(self):
         return short_hash([sorted(map(str, self.records)), sorted(map(str, self.fitted)),
                            self.master])
+
+
+def _ints(values):
+    """Stored instance positions as ints; anything that is not an integer stays as it is (and
+    then simply differs from the expected positions)."""
+    out = []
+    for x in values:
+        try:
+            out.append(int(x))
+        except (TypeError, ValueError):
+            out.append(str(x))
+    return out
 
 
 def _norm(v):
@@ -789,7 +807,7 @@ class History:
                 return
             for r in got:
                 exp = model.records[(r.strategy_name, r.dataset_name, f, part)]
-                if [int(x) for x in r.index] != exp["index"] or \
+                if _ints(r.index) != exp["index"] or \
                         [_norm(x) for x in r.y_true] != exp["y_true"] or \
                         [_norm(x) for x in r.y_pred] != exp["y_pred"]:
                     self.v("readback_differs", "after run %d: record read back for %s/%s fold %d "
@@ -824,7 +842,7 @@ class History:
                 return
             for r in got:
                 exp = model.records[(r.strategy_name, r.dataset_name, f, part)]
-                if [int(x) for x in r.index] != exp["index"] or \
+                if _ints(r.index) != exp["index"] or \
                         [_norm(x) for x in r.y_true] != exp["y_true"] or \
                         [_norm(x) for x in r.y_pred] != exp["y_pred"]:
                     self.v("wrong_record_y_pred", "RAM: record %s/%s fold %d %s differs from an "
